@@ -11,6 +11,19 @@ def native_same_tree(base, text):
     if r0['ok'] != r1['ok']: return [f'{text!r} preprocesses to {r1["ok"]["s"]!r} but {base!r} to {r0["ok"]["s"]!r}']
     return []
 
+def _nesting(text):
+    """nesting depth of quantifiers in a fully bracketed-by-scope text: counted by the reference parser"""
+    from ..oracle import ref
+    class _I:            # concrete characters only: no solver needed
+        ctx = None
+        def truth(self, r): return bool(r)
+        def char_pred(self, kind, c):
+            ch = chr(c)
+            return ch.isspace() if kind == 'ws' else ch.isalnum()
+    t = ref.parse(_I(), [ord(c) for c in text], False)
+    def names(f): return tuple(''.join(chr(c) for c in x) if isinstance(x, tuple) and x and isinstance(x[0], int) else (names(x) if isinstance(x, tuple) else x) for x in f)
+    return S.quant_depth(names(t)) or 1
+
 def run(chk):
     thorough = chk.tier == 'thorough'
     chk.bounds.update({'E-MIR': '6 base formulas (all operator classes, <= 3 variables, domains, wild-cards, constants); rewrites: 1-2 (thorough 3) symbolic whitespace characters (ASCII + Unicode representatives) at every pair of token boundaries, one redundant parenthesis pair around every sub-formula, every long/short operator spelling combination, the three constant spellings, consistent renaming with symbolic pairwise-distinct names of 1-2 characters',
@@ -42,12 +55,18 @@ def run(chk):
     variants = [('!{a}: AG EF {a}', ['\\bind {zz} :AG  EF({zz})', '(!{x}:(AG (EF ({x}))))', '! {xx}:\tAG\nEF {xx}']),
                 ('!{a}: 3{b}: (@{a}: ~{b} & AX {a}) & (@{b}: AX {b})', ['\\bind{xx}: \\exists {x}: (\\jump{xx}: ~{x} & (AX {xx})) & ((@{x}: AX {x}))', '!{b}:3{a}:(@{b}:~{a}&AX{b})&(@{a}:AX{a})']),
                 ('V{a}: (v0 EU ({a} | true)) => AF (v1 & false)', ['\\forall {x}: ((v0) EU ({x} | 1)) => (AF (v1 & 0))', 'V{xxx}:(v0 EU({xxx}|True))=>AF(v1&False)'])]
+    # sibling quantifiers: renaming may give every occurrence its own name (more names than nesting depth)
+    variants += [('(!{x}: AX {x}) | (!{x}: AG EF ({x} & v0))', ['(!{x}: AX {x}) | (!{y}: AG EF ({y} & v0))', '(!{xx}: AX {xx}) | (!{x}: AG EF ({x} & v0))', '(\\bind {a}: AX {a}) | (\\bind {b}: AG EF ({b} & v0))']),
+                 ('(3{x}: @{x}: v0) & (V{x}: EF {x}) & (!{x}: EX ~{x})', ['(3{p}: @{p}: v0) & (V{q}: EF {q}) & (!{r}: EX ~{r})']),
+                 ('!{x}: (3{xx}: @{xx}: EX {x}) & (V{xx}: EF {xx} | {x})', ['!{a}: (3{b}: @{b}: EX {a}) & (V{c}: EF {c} | {a})', '!{xx}: (3{x}: @{x}: EX {xx}) & (V{xxx}: EF {xxx} | {xx})'])]
     for inst in UC.instances(['U2', 'C2']):
         for base, vs in variants:
-            sess = UC.Session(inst, 3, [{'formulas': [t], 'entry': 'formula_dirty', 'phis': []} for t in [base] + vs])
+          for entry in ('formula_dirty', 'formula'):
+            # exactly as many symbolic variable sets as the nesting depth needs: no spare set hides a naming slip
+            sess = UC.Session(inst, _nesting(base), [{'formulas': [t], 'entry': entry, 'phis': []} for t in [base] + vs], plain=(entry == 'formula'))
             b0 = sess.first(0)
             for t, i in zip(vs, range(1, len(vs) + 1)):
-                name = f'C08/native {inst.name}: {t!r} gives the same raw BDD as {base!r}'
+                name = f'C08/native {inst.name}: {t!r} gives the same BDD as {base!r} (model_check_{entry}, k = nesting depth)'
                 ok = sess.first(i) is not None and sess.first(i) == b0
                 chk.obligation(name, 'native', 'holds' if ok else 'violated', 0.0, True, {'base': base, 'variant': t, 'instance': inst.name})
                 if not ok: chk.violation(name, 'rewrite-result', {'base': base, 'variant': t, 'instance': inst.name, 'aeon': inst.aeon, 'answers': [sess.runs[0], sess.runs[i]]}, f'{t!r} and {base!r} evaluate differently')
